@@ -48,7 +48,13 @@ class CacheLock:
             self.cache_lock.acquire()
         except portalocker.exceptions.LockException:
             raise CacheException(f"Could not lock cache using {self.cache_lock_filename}")
-        pass
+        if self.write_time:
+            # Another holder may have finished its refresh while this one waited for the lock.
+            time_since_update = self.current_timestamp - _read_last_cached_time(self.cache_folder)
+            if time_since_update < self.time_threshold:
+                self.cache_lock.release()
+                raise CacheException(f"Last updated {time_since_update} seconds ago.  "
+                                     f"Threshold is {self.time_threshold}")
 
     def __exit__(self, exc_type, exc_value, traceback):
         if self.write_time:
